@@ -39,6 +39,7 @@ type Contract struct {
 	Key       string // function key, e.g. "(*dlqWindow).store", or closure selector
 	Closure   *ClosureSel
 	IsIface   bool // contract on an interface method (used at invoke sites)
+	Refines   string // key of the concrete method whose proved contract an interface contract restates
 	IsFuncType bool // contract on calls through values of a named func type
 	Params    []string
 	Results   []string
@@ -298,6 +299,10 @@ func ParseContracts(pkgPath, file string, text string) ([]*Contract, []*Def, err
 				return nil, nil, fail(d, err)
 			}
 			cur.Ensures = append(cur.Ensures, cl)
+		case "refines":
+			// on an interface contract: the concrete method whose proved contract
+			// this one restates (clause labels must match, see cmdCheck)
+			cur.Refines = strings.TrimSpace(d.text)
 		case "assume":
 			cl, err := mkClause(label, d.text, d.line)
 			if err != nil {
